@@ -11,6 +11,7 @@ import os
 from collections import Counter
 
 import vlib
+from props import c17gate
 
 
 def hx(s):
@@ -462,6 +463,12 @@ def gen_scripts(ctx):
                 kind = ("Q" if st == "req" else "P") if x < 0.8 else ("X" if x < 0.9 else "E")
                 if rng.random() < 0.05:
                     kind = rng.choice("QPXE")
+                if (kind == "P" and st == "rep" and m.calls[c][1] and m.calls[c][1][0] == "e"
+                        and m.el[c[0]] and m.term[c[0]] != c[1]):
+                    # ClusterNode.handleRpcResponse closes the endpoint on a failed call, which also fails the
+                    # candidate's CURRENT call to the same peer; the model treats calls as independent (manifest
+                    # note), so the error reply of an older call is lost instead while the candidate is electing
+                    kind = "X"
                 ev = "%s%d,%d,%d" % (kind, c[0], c[1], c[2])
             else:
                 j = rng.randrange(len(m.hnet) + (1 if rng.random() < 0.05 else 0))
@@ -536,7 +543,7 @@ def run_election(ctx):
     if ctx.replay:
         rp = json.load(open(ctx.replay))
         scripts = [r["case"] for r in [rp["replay"]] + rp.get("more_cases", [])
-                   if isinstance(r, dict) and r.get("case") and not r["case"].startswith("G ")]
+                   if isinstance(r, dict) and r.get("case") and not r["case"].startswith(("G ", "X "))]
     else:
         scripts = gen_scripts(ctx)
     if not scripts:
@@ -596,4 +603,5 @@ def run(ctx):
         ctx.finish()
     run_ring(ctx)
     run_election(ctx)
+    c17gate.run_gate(ctx)
     ctx.finish()
